@@ -7,7 +7,10 @@ from checks import execframe_common as X
 
 PID = "C03"
 EFLAGS = ["init_cache_exported", "open_handle_data", "open_emit"]
-RULE_ID = {"happy": 1, "fabric": 2, "simfab": 3, X.RULE_WASM_ADDR: 4, "0x00000000000000000000000000000000000000e9": 6}
+RULE_ID = {"happy": 1, "fabric": 2, "simfab": 3, X.RULE_WASM_ADDR: 4, "0x00000000000000000000000000000000000000e9": 6,
+           "0x00000000000000000000000000000000000000a2": 1, "0x00000000000000000000000000000000000000a0": 2,
+           "0x00000000000000000000000000000000000000a1": 3}
+HAPPY_ADDR = "0x00000000000000000000000000000000000000a2"
 VKEYS = ["v:%d" % i for i in range(8)]
 
 
@@ -28,14 +31,21 @@ class World:
             c = self.chains.setdefault(step["chain"], {})
             c["registered"] = True
             if step.get("rules") is not None:
-                c["rules"] = [(RULE_ID.get(a, 6), st == "available") for a, st in step["rules"]]
+                firsta = [i for i, r in enumerate(step["rules"]) if r[1] == "available"][:1]
+                c["rules"] = [(RULE_ID.get(r[0], 6), r[1] == "available", (r[2] == "master") if len(r) > 2 else [i] == firsta)
+                              for i, r in enumerate(step["rules"])]
             elif step.get("rule") == "none":
                 c["rules"] = []
             else:
-                c["rules"] = [(RULE_ID.get(step.get("rule") or "happy", 6), (step.get("rstatus") or "available") == "available")]
+                c["rules"] = [(RULE_ID.get(step.get("rule") or "happy", 6), (step.get("rstatus") or "available") == "available", True)]
             c["validators"] = [X.acct_id(v) for v in step["trust"]] if step.get("trust") is not None else None
         elif step["op"] == "drop_chain":
             self.chains.pop(step["chain"], None)
+
+    def readback(self, chain, lst):
+        """the rule list as the implementation holds it now (driver step "rules")"""
+        self.chains.setdefault(chain, {"registered": True, "validators": None})["rules"] = [
+            (RULE_ID.get(a, 6), st == "available", bool(m)) for a, st, m in (lst or [])]
 
     def gchains(self):
         return glist(["(%s, {| a_trust := 0%%N; a_validators := %s |})" % (
@@ -43,7 +53,7 @@ class World:
             for n, c in sorted(self.chains.items()) if c.get("registered")])
 
     def grules(self):
-        return glist(["(%s, %s)" % (X.gNn(cnum(n)), glist(["{| r_addr := %s; r_available := %s |}" % (X.gNn(a), gbool(av)) for a, av in c.get("rules", [])]))
+        return glist(["(%s, %s)" % (X.gNn(cnum(n)), glist(["{| r_addr := %s; r_available := %s; r_master := %s |}" % (X.gNn(a), gbool(av), gbool(ms)) for a, av, ms in c.get("rules", [])]))
                       for n, c in sorted(self.chains.items())])
 
 
@@ -173,14 +183,70 @@ def gen_proof_history(r, quick, nm):
             if adv and op["pdesc"]["proof"]["kind"] == "hex" and not op["tx"].get("to"):
                 op["maybe_advance"] = adv
         # resolved later in resolve_script
-    return dict(cfg=dict(admins=4, gas=0, audit=False, bal="1000000000000000"), script=script)
+    return dict(cfg=dict(admins=4, gas=0, audit=False, bal="1000000000000000", proof=r.choice(["", "parallel"])), script=script)
+
+
+def call_op(frm, contract, method, args, ok=True, tag="gov_call"):
+    return dict(tx={"t": "bvm", "from": frm, "to": "c:" + contract, "m": method, "args": args}, frm=frm,
+                body=("bvm", ("done",) if ok else ("fail", False)), invalid=False, tag=tag)
+
+
+def gen_governed(r, nm, variant):
+    """GOVERNED rule history: a chain whose master rule is not the first list entry (the accept-everything
+    rule is always registered at index 0); its admin proposes UpdateMasterRule to that earlier rule through the
+    real RuleManager, the governance admins reject (or approve); then a junk proof is checked directly and
+    inside a block.  The rule list used by the model is read back from the real contract state."""
+    master = r.choice(["fabric", "simfab"])
+    decision = variant
+    script = [("pre", s) for s in X.SEED2]
+    script += [("pre", {"op": "seed_chain", "chain": "chainG", "rules": [["happy", "bindable", "no"], [master, "available", "master"]]}),
+               ("pre", {"op": "seed_service", "chain": "chainG", "svc": "svc1", "ordered": True}),
+               ("pre", {"op": "seed_appchain_admin", "chain": "chainG", "acct": "u:5"}),
+               ("pre", {"op": "fund", "acct": "u:5", "amt": "5"}), ("pre", {"op": "fund", "acct": "u:1", "amt": "5"}),
+               ("block", [], {}), ("rules", "chainG")]
+
+    def junk(tag):
+        return ibtp_op(nm, "u:1", "chainG", 1, "ok", handles=True)
+    j = junk("before")
+    script += [("check", dict(tx=j["tx"], pdesc=j["pdesc"]), None)]
+    script += [("block", [call_op("u:5", "rule", "UpdateMasterRule", [["s", "chainG"], ["s", HAPPY_ADDR], ["s", "r"]], tag="update_master_rule")], {}),
+               ("rules", "chainG")]
+    j = junk("pending")
+    script += [("check", dict(tx=j["tx"], pdesc=j["pdesc"]), None)]
+    voters = ["a:0", "a:1", "a:2"] if decision == "approve" else ["a:0", "a:1"]
+    for v in voters:
+        script.append(("block", [call_op(v, "governance", "Vote", [["pid", "u:5", 0], ["s", decision], ["s", "r"]], tag="vote_" + decision)], {}))
+    script.append(("rules", "chainG"))
+    j = junk("after")
+    script += [("check", dict(tx=j["tx"], pdesc=j["pdesc"]), None)]
+    j2 = junk("after_block")
+    if decision == "reject":
+        j2["body"] = ("ibtp", ("done",))
+    script.append(("block", [j2], {}))
+    return dict(cfg=dict(admins=4, gas=0, audit=False, bal="1000000000000000"), script=script, governed=decision)
+
+
+def gen_parallel(nm, size):
+    """parallel proof grouping: a block of [size] transactions per position of one IBTP with a forged proof"""
+    script = [("pre", s) for s in X.SEED2] + [("pre", {"op": "fund", "acct": "u:%d" % u, "amt": "10000000000000"}) for u in range(3)]
+    script.append(("block", [], {}))
+    ids = X.Ids()
+    for pos in range(size):
+        ops = []
+        for i in range(size):
+            if i == pos:
+                ops.append(ibtp_op(nm, "u:1", "chainA", 1, "mismatch" if (pos + size) % 2 else "absent"))
+            else:
+                ops.append(X.op_store_set(ids, "u:%d" % (i % 3), "k%d" % i, 10 * size + i))
+        script.append(("block", ops, {}))
+    return dict(cfg=dict(admins=4, gas=0, audit=False, bal="1000000000000000", proof="parallel"), script=script)
 
 
 def chain_accepts(world, src):
     c = world.chains.get(src)
     if not c or not c.get("registered"):
         return False
-    for a, av in c.get("rules", []):
+    for a, av, _ in c.get("rules", []):
         if av:
             return a in (1, 4)
     return False
@@ -226,6 +292,8 @@ def to_history(g):
             steps.append({"op": "checkproof", "tx": item[1]["tx"]})
         elif item[0] == "restart":
             steps.append({"op": "restart"})
+        elif item[0] == "rules":
+            steps.append({"op": "rules", "chain": item[1]})
     return {"cfg": g["cfg"], "steps": steps, "timeout_ms": 90000}
 
 
@@ -244,6 +312,9 @@ def build_proof_rows(g, out, flagsets, ids):
         if item[0] == "pre":
             world.seed(item[1])
             run.sh.apply_pre(item[1])
+            continue
+        if item[0] == "rules":
+            world.readback(item[1], ob.get("rules"))
             continue
         if item[0] != "block":
             continue
@@ -313,6 +384,8 @@ def build_verify_rows(g, out):
             break
         if item[0] == "pre":
             world.seed(item[1])
+        if item[0] == "rules":
+            world.readback(item[1], steps[si].get("rules"))
         if item[0] != "check":
             continue
         ob = steps[si]
@@ -320,7 +393,7 @@ def build_verify_rows(g, out):
         obs = 0 if ob.get("ok") else (1 if ob.get("errnil") else 2)
         row = "(%s, {| pd_chains := %s; pd_rules := %s; pd_ibtp := %s; pd_proof := %s |}, %s)" % (
             X.gNn(X.BXH), world.gchains(), world.grules(), gibtp(d["ibtp"], d["pnum"], d["proofhash"]), gproof(d["proof"], d["pnum"]), X.gNn(obs))
-        rows.append((row, dict(step=si, signers=d["proof"].get("signers"), nvals=len(world.chains["1357"]["validators"] or []), obs=obs, cls=ob.get("cls"))))
+        rows.append((row, dict(step=si, signers=d["proof"].get("signers"), nvals=len((world.chains.get("1357") or {}).get("validators") or []), obs=obs, cls=ob.get("cls"))))
     return rows
 
 
@@ -446,8 +519,11 @@ def run(ctx):
     open_map, xflagsets, eflagsets = flag_setup()
     ids, nm = X.Ids(), Namer()
     if ctx.model_ok:
-        pitems = [crash_corpus(nm)] + [resolve_script(gen_proof_history(ctx.rng, ctx.quick, nm)) for _ in range(100 if ctx.quick else 1500)]
-        mitems = gen_multisig(ctx.rng, ctx.quick, nm)
+        pitems = [crash_corpus(nm)] + [gen_parallel(nm, size) for size in range(6, 14)]
+        gitems = [gen_governed(ctx.rng, nm, v) for v in (["reject", "approve"] if ctx.quick else ["reject", "approve"] * 6)]
+        pitems += gitems
+        pitems += [resolve_script(gen_proof_history(ctx.rng, ctx.quick, nm)) for _ in range(100 if ctx.quick else 1500)]
+        mitems = gen_multisig(ctx.rng, ctx.quick, nm) + gitems        # the governed histories also contain direct CheckProof steps
         eitems = gen_entry(ctx.rng, ctx.quick)
         allg = pitems + mitems + eitems
         outs, e = X.run_histories(exe, [to_history(g) for g in allg])
@@ -455,6 +531,8 @@ def run(ctx):
             ctx.broken("driver:execframe", e)
             return ctx.finish(rule="-")
         po, mo, eo = outs[:len(pitems)], outs[len(pitems):len(pitems) + len(mitems)], outs[len(pitems) + len(mitems):]
+        ctx.extra["governed_rule_histories"] = len(gitems)
+        ctx.extra["parallel_grouping_blocks"] = sum(range(6, 14))
         # --- proof defects through block execution
         flat = []
         for g, out in zip(pitems, po):
@@ -508,7 +586,9 @@ def run(ctx):
                           sample=dict(driver="execframe", kind="multisig", validators=info["nvals"], signers=info["signers"], impl=info["cls"], verdict=v))
                 ctx.traces_validated += 1
                 rep = dict(property=PID, kind="verify", g=g, step=info["step"], verdict=v, info=info)
-                if v[0] == 2:
+                if v[0] == 2 and v[1] == 2:
+                    ctx.violation("CheckProof accepted an IBTP although the chain's current MASTER rule does not accept its proof", rep)
+                elif v[0] == 2:
                     ctx.violation("CheckProof accepted a relayed IBTP without more than (n-1)/3 distinct registered signers", rep)
                 elif v[0] != 0:
                     ctx.broken("correspondence:judge_verify", "first differing case: replay=%s %s" % (X.save_mismatch(ctx, rep), json.dumps(rep)[:600]))
